@@ -56,7 +56,8 @@ def inner(w, y):
 AFFINE = ("FilterConv", "DensityFilter", "AssembleGeneral", "AssembleStiffness", "AssembleMass", "AssemblePoisson", "ElementOperation",
           "Strain", "Stress", "ElementAverage", "NodalOperation", "ThermoMechanical", "EinSum", "ConcatSignal", "MakeComplex",
           "RealPart", "ImagPart")
-SMOOTH = ("ComplexNorm", "PNorm/p2", "Scaling", "Inverse", "LinSolve", "SystemOfEquations", "StaticCondensation")
+SMOOTH = ("ComplexNorm", "PNorm", "KSFunction", "SoftMinMax", "Scaling", "Inverse", "LinSolve", "SystemOfEquations", "StaticCondensation",
+          "OverhangFilter", "EigenSolve")
 
 
 def seeds_for(outs, rng, mode, kind="dense"):
@@ -211,6 +212,8 @@ def check_entry_smooth(idx_seed):
                     def f(h):
                         mm, ii, oo = entry.make()
                         mm.response()      # documented memories (Scaling's normalisation by its first value) are fixed at the base point
+                        if getattr(mm, "scaling", None) is not None and hasattr(mm, "sf"):
+                            mm.scaling = (lambda xx, fx, s0=mm.sf: s0)      # aggregation scaling is frozen in the adjoint (the property's quantifier)
                         for s, s0, v in zip(ii, ins, V):
                             st = s0.state
                             if sps.issparse(st):
@@ -221,10 +224,11 @@ def check_entry_smooth(idx_seed):
                                 s.state = np.asarray(st) + h * v
                         mm.response()
                         return [dense(o.state) for o in oo]
-                    dY = richardson(f)
+                    steep = entry.name.startswith("OverhangFilter")     # p = 40: strong curvature, smaller step and wider tolerance
+                    dY = richardson(f, 2e-4 if steep else 1e-3)
                     phi = sum(inner(dense(w), d) for w, d in zip(W, dY))
                     got = sum(inner(g, v) for g, v in zip(G, V))
-                    if abs(got - phi) > 2e-7 * max(1.0, abs(phi), abs(got)):
+                    if abs(got - phi) > (2e-5 if steep else 2e-7) * max(1.0, abs(phi), abs(got)):
                         out.append(("adjoint-obs", "%s [%s]: Re sum(g v) = %.10g, numerical directional derivative %.10g" % (entry.name, mode, got, phi)))
                         break
         except Exception as e:
